@@ -156,7 +156,9 @@ Section Methods.
   Proof.
     unfold do_executing; intros now me d md d' H.
     destruct (has_timed_out now d); [discriminate|].
-    destruct (contains (st_leaving d) me && valid_change (st_state d) Left); [eapply do_left_sum; eassumption|].
+    destruct (contains (st_leaving d) me && valid_change (st_state d) Left).
+    { destruct (st_leader d); [|discriminate]. destruct (negb (bytes_eqb _ _)); [discriminate|].
+      eapply do_left_sum; eassumption. }
     simple_method H; apply negb_false; assumption.
   Qed.
 
@@ -681,8 +683,8 @@ Section Proc2.
     /\ contains (t_joining t) l = false /\ contains (t_leaving t) l = false /\ contains (t_remaining t) l = true
     /\ st_threshold f <= len (t_remaining t)
     /\ unix (t_genesis_time t) = unix (st_genesis_time f) /\ t_genesis_seed t = st_genesis_seed f
-    /\ contains_all (g_nodes g) (t_remaining t ++ t_leaving t) = true
-    /\ contains_all (t_remaining t ++ t_leaving t) (g_nodes g) = true.
+    /\ contains_all_ak (g_nodes g) (t_remaining t ++ t_leaving t) = true
+    /\ contains_all_ak (t_remaining t ++ t_leaving t) (g_nodes g) = true.
 
   Lemma ltb_false : forall a b, b <= a -> (a <? b) = false.
   Proof. intros; apply Z.ltb_ge; assumption. Qed.
@@ -923,40 +925,58 @@ Section Reject.
     destruct (bytes_eqb (t_genesis_seed t) (st_genesis_seed d)) eqn:Q; [apply bytes_eqb_eq in Q; contradiction|discriminate].
   Qed.
 
-  Lemma contains_all_false : forall hay needles n, In n needles -> has_addr hay (p_addr n) = false -> contains_all hay needles = false.
+  Lemma contains_all_ak_false : forall hay needles n, In n needles -> has_addr_key hay n = false -> contains_all_ak hay needles = false.
   Proof.
-    intros hay needles n Hin H. unfold contains_all. destruct (forallb _ _) eqn:E; auto.
+    intros hay needles n Hin H. unfold contains_all_ak. destruct (forallb _ _) eqn:E; auto.
     rewrite forallb_forall in E. rewrite (E n Hin) in H. discriminate.
   Qed.
 
-  (* a proposal that INVENTS a current member: some remaining/leaving address is not in the group *)
+  (* no participant with that address at all implies no participant with that address and key *)
+  Lemma has_addr_key_addr : forall hay n, has_addr hay (p_addr n) = false -> has_addr_key hay n = false.
+  Proof.
+    unfold has_addr, has_addr_key. induction hay as [|v hay IH]; simpl; intros n H; auto.
+    apply orb_false_elim in H. destruct H as [H1 H2]. rewrite H1. simpl. apply IH; assumption.
+  Qed.
+
+  (* a proposal that INVENTS a current member, or keeps a member's address under ANOTHER KEY: some
+     remaining/leaving participant has no node with the same address and key in the group *)
   Lemma reject_invented_member : forall now d t g n, st_state d <> Fresh -> t_epoch t <> 1 ->
-    st_final_group d = Some g -> In n (t_remaining t ++ t_leaving t) -> has_addr (g_nodes g) (p_addr n) = false ->
+    st_final_group d = Some g -> In n (t_remaining t ++ t_leaving t) -> has_addr_key (g_nodes g) n = false ->
     vp now d (Some t) <> None.
   Proof.
     intros now d t g n F E G Hin H. apply vp_remainer; auto. unfold validate_reshare_for_remainers.
     destruct (negb (_ =? _)); [discriminate|]. destruct (negb (bytes_eqb _ _)); [discriminate|].
-    rewrite G. rewrite (contains_all_false _ _ n Hin H). discriminate.
+    rewrite G. rewrite (contains_all_ak_false _ _ n Hin H). discriminate.
   Qed.
 
-  (* a proposal that DROPS a current member: some group address is neither remaining nor leaving *)
+  (* a proposal that DROPS a current member: some group node is neither remaining nor leaving (with
+     its address and key) *)
   Lemma reject_dropped_member : forall now d t g n, st_state d <> Fresh -> t_epoch t <> 1 ->
-    st_final_group d = Some g -> In n (g_nodes g) -> has_addr (t_remaining t ++ t_leaving t) (p_addr n) = false ->
+    st_final_group d = Some g -> In n (g_nodes g) -> has_addr_key (t_remaining t ++ t_leaving t) n = false ->
     vp now d (Some t) <> None.
   Proof.
     intros now d t g n F E G Hin H. apply vp_remainer; auto. unfold validate_reshare_for_remainers.
     destruct (negb (_ =? _)); [discriminate|]. destruct (negb (bytes_eqb _ _)); [discriminate|].
-    rewrite G. destruct (negb (contains_all (g_nodes g) _)); [discriminate|].
-    rewrite (contains_all_false _ _ n Hin H). discriminate.
+    rewrite G. destruct (negb (contains_all_ak (g_nodes g) _)); [discriminate|].
+    rewrite (contains_all_ak_false _ _ n Hin H). discriminate.
   Qed.
 
-  (* F13b: a non-Fresh base state without FinalGroup (state Left reached from Proposed) makes the
-     remainer check dereference nil *)
-  Lemma left_state_panics : forall now d t,
+  (* F13b (fixed): a non-Fresh base state without FinalGroup (state Left reached from Proposed) used to
+     make the remainer check dereference nil; it now refuses the proposal with an error *)
+  Lemma left_state_refuses : forall now d t,
+    st_state d <> Fresh -> st_final_group d = None -> t_epoch t <> 1 ->
+    vp now d (Some t) <> None.
+  Proof.
+    intros now d t F G E. apply vp_remainer; auto. unfold validate_reshare_for_remainers.
+    destruct (negb (_ =? _)); [discriminate|]. destruct (negb (bytes_eqb _ _)); [discriminate|].
+    rewrite G. discriminate.
+  Qed.
+
+  Lemma left_state_error : forall now d t,
     st_state d <> Fresh -> st_final_group d = None -> t_epoch t <> 1 ->
     validate_for_all_dkgs joiner_ok now d (Some t) = None -> validate_reshare_terms d t = None ->
     unix (t_genesis_time t) = unix (st_genesis_time d) -> t_genesis_seed t = st_genesis_seed d ->
-    vp now d (Some t) = Some EPanic.
+    vp now d (Some t) = Some EMissingPreviousGroup.
   Proof.
     intros now d t F G E V R GT GS. unfold validate_proposal. rewrite V.
     apply Z.eqb_neq in E; rewrite E. rewrite R. apply status_eqb_neq in F; rewrite F; simpl.
